@@ -83,6 +83,10 @@ class Context:
         return self._orig
 
     def symex(self, **kw):
+        # thorough tier: one more trip around every loop (state carried from one iteration into the next becomes visible)
+        if self.tier == 'thorough' and os.environ.get('VERIF_DEEP_LOOPS', '1') == '1' and kw.get('loop_visits') == 2 and not kw.get('havoc_loops'):
+            kw = dict(kw)
+            kw['loop_visits'] = 3
         return SymEx(self.prog, eff=self.eff, **kw)
 
     def where(self, nid, line=None):
